@@ -452,4 +452,108 @@ theorem nested_depth2 (s0 s : KState ℚ σ) (h0 : Once.Inv0 false s0) (c0 : Con
 
 end Global
 
+/-! ### non-vacuity: concrete programs, evaluated by the Lean kernel (`Lemmas/CondExamples.lean`)
+
+Event ids: `0` main process, `1` its `Initialize`, then the events in creation order. -/
+
+/-- the hypotheses of the global theorems hold for the five example runs (each run ends; every step is in the domain) -/
+example : Once.Inv0 false Cond.start ∧ Cond.Inv0 Cond.start ∧ Cond.SafeRun Cond.allBody 5 Cond.start ∧
+    Cond.SafeRun Cond.anyBody 5 Cond.start ∧ Cond.SafeRun Cond.failBody 5 Cond.start ∧
+    Cond.SafeRun Cond.lateBody 5 Cond.start ∧ Cond.SafeRun Cond.nestBody 5 Cond.start ∧
+    Cond.SafeRun Cond.nest2Body 5 Cond.start :=
+  ⟨Cond.start_once, Cond.start_cond, Cond.all_safe, Cond.any_safe, Cond.fail_safe, Cond.late_safe, Cond.nest_safe,
+    Cond.nest2_safe⟩
+
+/-- …and a program that triggers its condition by hand is outside the domain -/
+example : ¬ Cond.DomStep Cond.handBody 5 Cond.start := Cond.hand_unsafe
+
+/-- **`all_of` over two timeouts due at the same instant** (`2 & 3`, condition `4`): after the first timeout the condition
+is pending with `_count = 1` and its `_check` is still subscribed to the second; it is triggered in exactly the step that
+processes the second timeout (`_count = 2`); when it is processed its value holds both, in operand order, and no `_check`
+is left. -/
+example :
+    Cond.outIs (Cond.nth Cond.allBody Cond.start 2) 4 none = true ∧ ((Cond.nth Cond.allBody Cond.start 2).ev 4).count = 1 ∧
+    ((Cond.nth Cond.allBody Cond.start 2).ev 3).cbs = some [.check 4] ∧
+    Cond.outIs (Cond.nth Cond.allBody Cond.start 3) 4 (some (.ok .none)) = true ∧
+    ((Cond.nth Cond.allBody Cond.start 3).ev 4).count = 2 ∧
+    Cond.outIs (Cond.nth Cond.allBody Cond.start 4) 4 (some (.ok (.cv [2, 3]))) = true ∧
+    Cond.hasCheck (Cond.nth Cond.allBody Cond.start 4) 4 = false := by decide +kernel
+
+/-- the counting invariant, instantiated on that run: the state after two steps is reachable, the condition is pending
+and attached, so the theorem applies (and says `_count = 1`) -/
+example : ((Cond.nth Cond.allBody Cond.start 2).ev 4).count =
+    [2, 3].countP (fun e => (Cond.nth Cond.allBody Cond.start 2).processed e) :=
+  (cond_counting_invariant Cond.allBody 5 Cond.start _ Cond.start_once Cond.start_cond Cond.all_safe
+    (Cond.reach_nth Cond.allBody 2 (by decide +kernel)) 4 true [2, 3] (by decide +kernel) (by decide +kernel)
+    (Cond.not_gone_of_no_built 4 (by decide +kernel))).1
+
+/-- **`any_of` with an operand that is already processed** (`2 | 3`, `2` processed, condition `4`): triggered inside the
+constructor (`_count = 1`, in the very step that creates it), the unprocessed timeout `3` still carries the `_check`;
+when the condition is processed its value holds exactly the processed operand `2`, and the `_check` is removed from `3`. -/
+example :
+    Cond.outIs (Cond.nth Cond.anyBody Cond.start 1) 4 none = true ∧
+    Cond.outIs (Cond.nth Cond.anyBody Cond.start 2) 4 (some (.ok .none)) = true ∧
+    ((Cond.nth Cond.anyBody Cond.start 2).ev 4).count = 1 ∧
+    ((Cond.nth Cond.anyBody Cond.start 2).ev 3).cbs = some [.check 4] ∧
+    Cond.outIs (Cond.nth Cond.anyBody Cond.start 3) 4 (some (.ok (.cv [2]))) = true ∧
+    ((Cond.nth Cond.anyBody Cond.start 3).ev 3).cbs = some [] := by decide +kernel
+
+/-- **an operand fails before the condition is met** (`2 & 3`, `2` fails at time 1): in the step that processes `2` the
+condition fails with exactly that exception and `2` is defused (so `step()` does not raise); the outcome stays. -/
+example :
+    Cond.outIs (Cond.nth Cond.failBody Cond.start 3) 4 none = true ∧
+    Cond.outIs (Cond.nth Cond.failBody Cond.start 4) 4 (some (.fail ⟨"KeyError", [.int 3]⟩)) = true ∧
+    ((Cond.nth Cond.failBody Cond.start 4).ev 2).defused = true ∧
+    Cond.outIs (Cond.nth Cond.failBody Cond.start 6) 4 (some (.fail ⟨"KeyError", [.int 3]⟩)) = true ∧
+    Cond.hasCheck (Cond.nth Cond.failBody Cond.start 6) 4 = false := by decide +kernel
+
+/-- **an operand fails after the condition was met** (`2 | 3`; `2` succeeds, `3` fails, both before the condition is
+processed): the condition, triggered by `2`, does not change (`_count` stays 1) and does **not** defuse `3` — the step
+that processes `3` raises its exception, as `late_failure_not_defused` says (its hypotheses hold in that state). -/
+example :
+    Cond.outIs (Cond.nth Cond.lateBody Cond.start 2) 4 (some (.ok .none)) = true ∧
+    ((Cond.nth Cond.lateBody Cond.start 2).ev 3).cbs = some [.check 4] ∧
+    (Cond.nth Cond.lateBody Cond.start 2).triggered 4 = true ∧
+    (match step Cond.lateBody 5 (Cond.nth Cond.lateBody Cond.start 2) with
+      | .crash x _ => x.ty == "KeyError" && x.args == [.int 4]
+      | _ => false) = true ∧
+    Cond.outIs (Cond.nth Cond.lateBody Cond.start 3) 4 (some (.ok .none)) = true ∧
+    ((Cond.nth Cond.lateBody Cond.start 3).ev 4).count = 1 ∧
+    ((Cond.nth Cond.lateBody Cond.start 3).ev 3).defused = false := by decide +kernel
+
+/-- **nested, the outer condition fires first**: `outer = (2 & 3) | 4` with `inner = 5`, `outer = 6`, timeouts at 1, 3, 2.
+At time 2 the outer `any_of` is triggered by `4` while the inner `all_of` is pending with `_count = 1`; when the outer one
+is processed its value is `[2, 4]` — the processed leaf of the *untriggered* inner condition included — and the `_check`s
+of the outer **and of the inner** condition are gone; the inner condition is still pending when the run ends. -/
+example :
+    Cond.outIs (Cond.nth Cond.nestBody Cond.start 3) 6 (some (.ok .none)) = true ∧
+    Cond.outIs (Cond.nth Cond.nestBody Cond.start 3) 5 none = true ∧
+    ((Cond.nth Cond.nestBody Cond.start 3).ev 5).count = 1 ∧
+    Cond.outIs (Cond.nth Cond.nestBody Cond.start 4) 6 (some (.ok (.cv [2, 4]))) = true ∧
+    Cond.hasCheck (Cond.nth Cond.nestBody Cond.start 4) 6 = false ∧
+    Cond.hasCheck (Cond.nth Cond.nestBody Cond.start 4) 5 = false ∧
+    Cond.outIs (Cond.nth Cond.nestBody Cond.start 6) 5 none = true := by decide +kernel
+
+/-- **nested, the inner condition fires first**: `outer = (2 | 3) & 4` (timeouts at 1, 4, 2): the inner `any_of` is triggered
+at time 1 and processed with value `[2]`; its processing is what the outer `all_of` counts (`_count = 1`); the outer one
+is triggered in the step that processes `4` and gets the value `[2, 4]`. -/
+example :
+    Cond.outIs (Cond.nth Cond.nest2Body Cond.start 2) 5 (some (.ok .none)) = true ∧
+    Cond.outIs (Cond.nth Cond.nest2Body Cond.start 3) 5 (some (.ok (.cv [2]))) = true ∧
+    ((Cond.nth Cond.nest2Body Cond.start 3).ev 6).count = 1 ∧
+    Cond.outIs (Cond.nth Cond.nest2Body Cond.start 3) 6 none = true ∧
+    Cond.outIs (Cond.nth Cond.nest2Body Cond.start 4) 6 (some (.ok .none)) = true ∧
+    Cond.outIs (Cond.nth Cond.nest2Body Cond.start 5) 6 (some (.ok (.cv [2, 4]))) = true := by decide +kernel
+
+/-- `nested_depth2` instantiated on the first nested run, after the outer condition has been processed -/
+example : populate 7 (Cond.nth Cond.nestBody Cond.start 4) 6 = [2, 4] ∧
+    ∀ s', KReach Cond.nestBody 5 (Cond.nth Cond.nestBody Cond.start 4) s' → (s'.ev 5).out = none := by
+  have h := nested_depth2 Cond.nestBody 5 Cond.start _ Cond.start_once Cond.start_cond Cond.nest_safe
+    (Cond.reach_nth Cond.nestBody 4 (by decide +kernel)) 6 5 2 3 4 false true (by decide +kernel) (by decide +kernel)
+    (by decide +kernel) (by decide +kernel) (by decide +kernel)
+  obtain ⟨_, _, _, _, _, hval, hdet⟩ := h
+  refine ⟨?_, (hdet (by decide +kernel)).2 (by decide +kernel)⟩
+  rw [hval]
+  decide +kernel
+
 end C05
